@@ -1,10 +1,14 @@
 /-
   C11 driver: the same line protocol as C02 (`find … <inside>` with a region bit mask); the answer
-  for a region is `Model.C11.findRestricted`, without one `findUnrestricted`.
+  for a region is `Model.C11.findRestricted`, without one `findUnrestricted`.  The `gen` flag also compares with
+  `findRestrictedSky` assembled from the regenerated probe (`Gen.C11`), the region being the bit mask read as a
+  predicate on 0-based FITS positions (x = column, y = row).
 -/
-import Aegean.Driver.C02
+import Aegean.Driver.C02Core
 import Aegean.Model.C11
+import Aegean.Generated.C11
 
 namespace Drv.C11
-def handle (ws : List String) : String := Drv.C02.handle ws
+def handle (ws : List String) : String :=
+  Drv.C02.handleCore (fun _ _ _ _ _ => true) (some (Aegean.Model.C11.findRestrictedSky Gen.C11.probeX Gen.C11.probeY Gen.C11.probeOrigin)) ws
 end Drv.C11
